@@ -24,24 +24,24 @@ PROPS['C20'] = dict(
     not_decided=['api()/_api_of are outside the statement'],
 )
 PROPS['C13'] = dict(
-    modules=['specs.arglist', 'contracts.arglist', 'lemmas.arglist'],
+    modules=['specs.arglist', 'contracts.arglist', 'lemmas.arglist', 'contracts.regexes'],
     bounded=['bounded.arglist'],
     level='proof',
     design_ref='DESIGN.md §4 C13',
     technique='deductive: data structure against an abstract view; VCs from the real AST of arglist.py with quantified set invariants, SMT-discharged; the step from the abstract view to the eager meaning (lemma L13) bounded-exhaustive on the spec functions',
     level_text='Every mutating and reading method of CompilerArgs is proved, for all contents and all classification tables, to act as the corresponding list operation on the abstraction function view(container, pre, post, flag): flush_pre_post computes it (three loop invariants), += extends pre/post by the accepted split of the batch, the readers flush first. A method that forgets to flush, reorders, loses or invents an argument fails a named obligation.',
-    level_note='Assumed: _can_dedup/_should_prepend are pure functions of the argument (definitional abstraction can/prep); os.path.isabs uninterpreted; the compiler object opaque. Lemma L13 (view commutes with the statement-level eager meaning) is checked bounded-exhaustively, not proved. __len__, __eq__, __radd__ and extend_preserving_lflags are outside the contracts.',
+    level_note='The container methods are proved for EVERY classification (definitional abstraction can/prep of the pure classmethods _can_dedup/_should_prepend); for the C-like compilers the classification itself is under contract too (_can_dedup[clike], _should_prepend[clike]: tables and order of the tests against the kinds the statement names; the versioned-shared-library pattern compared by SMT with the names the statement means), the other subclasses are not; os.path.isabs uninterpreted; the compiler object opaque. Lemma L13 (view commutes with the statement-level eager meaning) is checked bounded-exhaustively, not proved. __len__, __eq__, __radd__ and extend_preserving_lflags are outside the contracts.',
     not_decided=['__len__ (counts pending duplicates), __eq__ (does not flush the other operand), __radd__', 'CLikeCompilerArgs.to_native group insertion and -isystem filtering'],
 )
 PROPS['C18'] = dict(
-    modules=['specs.tap', 'contracts.tap'],
+    modules=['specs.tap', 'specs.mtest', 'specs.taprun', 'contracts.tap', 'lemmas.taprun'],
     bounded=['bounded.tap'],
     level='proof',
     design_ref='DESIGN.md §4 C18',
-    technique='deductive: VCs from the real AST of TAPParser.parse_line / parse_test (abstract regex matches, path enumeration) against clause-wise postconditions from TAP 12/13; line recognisers and whole streams bounded',
-    level_text='parse_line is loop-free: every feasible path of the real function (per entry-state case) is executed symbolically and each clause of the TAP rules (one subtest per test line with number/name/status, plan and count errors, late plan, second plan, YAML handling, version line, bail-out, duplicate/missing numbers at the end, never raising) is an SMT obligation on that path.',
-    level_note='Assumed: the seven regular expressions recognise their line forms (abstract match/group functions; group languages taken from the sub-patterns; checked bounded against an independent recogniser on whole streams); str.rstrip/strip/upper uninterpreted; len(set) uninterpreted.',
-    not_decided=['TestRunTAP verdict fold is checked bounded only'],
+    technique='deductive: VCs from the real AST of TAPParser.parse_line / parse_test (abstract regex matches, path enumeration) against clause-wise postconditions from TAP 12/13; line recognisers and whole streams bounded; TestRunTAP.parse (the verdict fold) under three region contracts with a loop invariant over the event sequence and induction lemmas',
+    level_text='parse_line is loop-free: every feasible path of the real function (per entry-state case) is executed symbolically and each clause of the TAP rules (one subtest per test line with number/name/status, plan and count errors, late plan, second plan, YAML handling, version line, bail-out, duplicate/missing numbers at the end, never raising) is an SMT obligation on that path. TestRunTAP.parse: the event loop leaves the provisional verdict equal to the fold tapres over ALL events of the parser (invariant over the iterated sequence; L18.tapres_iff_anybad: set iff some event is an error, a bail-out or a bad subtest), the all-skipped rule never overrides an error or a failure (the loop invariant carries `FAIL implies a recorded bad subtest`, lemmas L18.anybadres_prefix / L18.allskip_not_anybadres by induction), and the final assignment stores the verdict unless the run is already final.',
+    level_note='Assumed: the seven regular expressions recognise their line forms (abstract match/group functions; group languages taken from the sub-patterns; checked bounded against an independent recogniser on whole streams); str.rstrip/strip/upper uninterpreted; len(set) uninterpreted. TestRunTAP.parse: TAPParser.parse_async is an effect returning an arbitrary finite event sequence (the async iteration is read as a for loop over it), harness.log_subtest an effect; the warning-formatting tail between the regions is outside the contracts.',
+    not_decided=['TestRunTAP.complete (exit status) and the composition of the three regions of TestRunTAP.parse are checked bounded only'],
 )
 PROPS['C12'] = dict(
     modules=['specs.mtest', 'contracts.mtest', 'lemmas.mtest'],
@@ -108,7 +108,7 @@ PROPS['C04'] = dict(
     not_decided=['dependency graph acyclic (bounded only)', 'every input exists or is produced (bounded only)', 'default and test targets reachable from all / meson-test-prereq (bounded only)', 'subprojects and the repository test corpus as generator inputs'],
 )
 PROPS['C06'] = dict(
-    modules=['specs.quoting', 'contracts.quoting', 'specs.ninja', 'contracts.conffile'],
+    modules=['specs.quoting', 'contracts.quoting', 'specs.ninja', 'contracts.conffile', 'contracts.optionkey'],
     bounded=['bounded.ninja:run_c06', 'bounded.determinism'],
     level='other',
     design_ref='DESIGN.md §4 C06',
